@@ -612,4 +612,14 @@ def c06_l(ctx: Ctx):
     ])
 
 
-RULES = [c06_l, c06_a, c06_b, c06_c, c06_d, c06_e, c06_f, c06_g, c06_h, c06_i, c06_j, c06_k]
+@rule("C06-m")
+def c06_m(ctx: Ctx):
+    """The per-job data that filters are evaluated against is the job's own: cache entries pair an id with its own state point (from C08-g)."""
+    from .c08 import c08_g
+    res = c08_g(ctx)
+    for r in res:
+        r.rule = "C06-m"
+    return res
+
+
+RULES = [c06_l, c06_a, c06_b, c06_c, c06_d, c06_e, c06_f, c06_g, c06_h, c06_i, c06_j, c06_k, c06_m]
